@@ -27,7 +27,7 @@ props.prop(
                 'defined outside the package',
     assumptions=['numpy &,|,^,~ on boolean masks are elementwise', 'SubsetState subclasses outside glue/ are not seen'])
 props.also('C01',
-           'that the edit-mode dispatcher applies the mode to every edited subset unconditionally; that the many-way or keeps a list of its own (copy, original and caller never share it)')
+           'that the edit-mode dispatcher applies the mode to every edited subset unconditionally; that the many-way or keeps a list of its own (copy, original and caller never share it); that the memo key takes the arguments unconverted (a list view and a tuple view never share an entry)')
 
 SUBSET = 'glue.core.subset'
 EXPECT = {'AND': lambda a, b: a.AND(b), 'OR': lambda a, b: a.OR(b), 'XOR': lambda a, b: a.XOR(b)}
